@@ -3,6 +3,7 @@
 #include <gmpxx.h>
 
 #include <cstdio>
+#include <unistd.h>
 #include <dune/common/bigunsignedint.hh>
 #include <dune/common/exceptions.hh>
 #include <dune/common/hash.hh>
@@ -10,6 +11,8 @@
 #include "hcommon.hh"
 
 using namespace dv;
+
+static unsigned dv_case_timeout = 30;  // seconds per case (--case-timeout)
 
 template <int k>
 struct Acc : Dune::Impl::numeric_limits_helper<Dune::bigunsignedint<k>> {
@@ -42,18 +45,165 @@ std::string pr(const Dune::bigunsignedint<k>& x) {
 }
 static std::string hexOf(const mpz_class& v) { return v.get_str(16); }
 
-// value check: printed form parses to the expected value AND the digits hold the expected value
+// fixed-width lower-case hex of a value (4 characters per 16-bit digit): the canonical answer for values
+static std::string hexFixed(const mpz_class& v, int n) {
+  std::string h = v.get_str(16);
+  if ((int)h.size() < 4 * n) h = std::string(4 * n - h.size(), '0') + h;
+  return h;
+}
+// canonical form of a printed number: lower case, no leading zeros, "0" for zero
+static std::string canonPrinted(std::string p) {
+  for (auto& c : p) c = (char)std::tolower((unsigned char)c);
+  size_t i = 0;
+  while (i + 1 < p.size() && p[i] == '0') ++i;
+  return p.substr(i);
+}
+
+// value check: the digits hold the expected value AND the printed form denotes the expected value.
+// The canonical answer (compared with the model) is read off the digits, so that the way print() formats
+// (leading zeros, case) is compared only where the property speaks about printing, and then canonicalised.
 template <int k>
 Result valueResult(const Dune::bigunsignedint<k>& r, const mpz_class& expect) {
   Result res;
-  res.impl = pr(r);
   mpz_class got = toMpz<k>(r);
+  res.impl = hexFixed(got, Dune::bigunsignedint<k>::n);
   if (got != expect) res.oracle = "FAIL value " + hexOf(got) + " expected " + hexOf(expect);
   else {
+    std::string p = pr(r);
     mpz_class printed;
-    if (printed.set_str(res.impl, 16) != 0 || printed != expect)
-      res.oracle = "FAIL printed '" + res.impl + "' does not denote " + hexOf(expect);
+    if (p.empty() || printed.set_str(p, 16) != 0 || printed != expect)
+      res.oracle = "FAIL printed '" + p + "' does not denote " + hexOf(expect);
   }
+  return res;
+}
+
+// ---- constructor overloads ------------------------------------------------------------------
+template <int k, class T>
+Result ctorAs(long long sv, unsigned long long uv, bool isSigned) {
+  using Big = Dune::bigunsignedint<k>;
+  Result res;
+  mpz_class W = mpz_class(1) << (16 * Big::n);
+  T y = isSigned ? (T)sv : (T)uv;
+  bool negative = isSigned && sv < 0;
+  try {
+    Big a(y);
+    if (negative) { res.impl = hexFixed(toMpz<k>(a), Big::n); res.oracle = "FAIL negative value accepted"; return res; }
+    mpz_class e = mpz_class(isSigned ? std::to_string(sv) : std::to_string(uv)) % W;
+    return valueResult<k>(a, e);
+  } catch (Dune::Exception&) {
+    res.impl = "ERR:Negative";
+    if (!negative) res.oracle = "FAIL non-negative value rejected";
+  }
+  return res;
+}
+
+// ---- operation histories on two variables -----------------------------------------------------
+static const long QUOT_CAP = 2000;  // same rule as Driver/C10.lean: slower divisions are not executed
+
+template <int k>
+Result execProg(const std::string& line) {
+  using Big = Dune::bigunsignedint<k>;
+  constexpr int n = Big::n;
+  Result res;
+  auto hb = split(line, ':');
+  if (hb.size() != 2) { res.impl = "bad-op"; res.oracle = "FAIL malformed program line"; return res; }
+  auto head = words(hb[0]);
+  if (head.size() != 4) { res.impl = "bad-op"; res.oracle = "FAIL malformed program line"; return res; }
+  mpz_class W = mpz_class(1) << (16 * n);
+  mpz_class SA, SB;  // GMP shadow of the two variables
+  SA.set_str(head[2], 16); SB.set_str(head[3], 16);
+  SA %= W; SB %= W;
+  Big a = fromMpz<k>(SA), b = fromMpz<k>(SB);
+  std::vector<std::string> obs;
+  std::string fail;
+  auto stmts = split(hb[1], ';');
+  stat("prog_len_" + std::to_string(std::min<size_t>(stmts.size(), 16)));
+  for (auto& st : stmts) {
+    auto w = words(st);
+    if (w.size() < 2 || (w[1] != "a" && w[1] != "b")) { res.impl = "bad-op"; res.oracle = "FAIL malformed statement '" + st + "'"; return res; }
+    const std::string& op = w[0];
+    bool dIsA = w[1] == "a";
+    Big& D = dIsA ? a : b;
+    mpz_class& SD = dIsA ? SA : SB;
+    Big& O = dIsA ? b : a;              // the variable that is not the destination
+    const mpz_class SO = dIsA ? SB : SA;
+    stat("stmt_" + op);
+    mpz_class E;          // expected new value of D
+    bool expectErr = false, threw = false;
+    const mpz_class SD0 = SD;
+    const Big* ret = nullptr;
+    try {
+      if (op == "incr" && w.size() == 2) { E = (SD + 1) % W; ret = &(++D); }
+      else if (op == "not" && w.size() == 2) { E = W - 1 - SD; D = ~D; }
+      else if ((op == "shl" || op == "shr") && w.size() == 3) {
+        int sh = std::stoi(w[2]);
+        if (sh < 0 || sh >= 16 * n) { res.impl = "bad-op"; res.oracle = "ok trivial"; return res; }
+        if (op == "shl") { E = (SD << sh) % W; D = D << sh; } else { E = SD >> sh; D = D >> sh; }
+      }
+      else if (op == "copy" && w.size() == 3 && (w[2] == "a" || w[2] == "b")) {
+        const Big& S = w[2] == "a" ? a : b;
+        E = w[2] == "a" ? SA : SB;
+        ret = &(D = S);
+      }
+      else if (w.size() == 3) {
+        bool builtin = op.size() > 1 && op.back() == 'u';
+        std::string base = builtin ? op.substr(0, op.size() - 1) : op;
+        mpz_class SS;
+        std::uintmax_t y = 0;
+        const Big* S = nullptr;
+        if (builtin) { y = std::stoull(w[2]); SS = mpz_class(std::to_string(y)) % W; }
+        else if (w[2] == "a" || w[2] == "b") { S = w[2] == "a" ? &a : &b; SS = w[2] == "a" ? SA : SB; if (S == &D) { stat("stmt_aliased"); if (base == "div" || base == "mod") stat("stmt_divmod_aliased"); } }
+        else { res.impl = "bad-op"; res.oracle = "FAIL malformed statement '" + st + "'"; return res; }
+        if ((base == "div" || base == "mod") && SS != 0 && SD / SS > QUOT_CAP) {
+          obs.push_back("SKIP");
+          stat("prog_skipped");
+          res.impl = join(obs.begin(), obs.end(), ";");
+          if (!fail.empty()) res.oracle = fail;
+          return res;
+        }
+        if (base == "add") E = (SD + SS) % W;
+        else if (base == "sub") E = ((SD - SS) % W + W) % W;
+        else if (base == "mul") E = (SD * SS) % W;
+        else if (base == "div") { if (SS == 0) expectErr = true; else E = SD / SS; }
+        else if (base == "mod") { if (SS == 0) expectErr = true; else E = SD % SS; }
+        else if (base == "and") E = SD & SS;
+        else if (base == "or") E = SD | SS;
+        else if (base == "xor") E = SD ^ SS;
+        else { res.impl = "bad-op"; res.oracle = "FAIL unknown statement '" + st + "'"; return res; }
+        if (builtin) {
+          if (base == "add") D = D + y; else if (base == "sub") D = D - y; else if (base == "mul") D = D * y;
+          else if (base == "div") D = D / y; else if (base == "mod") D = D % y;
+          else { res.impl = "bad-op"; res.oracle = "FAIL unknown statement '" + st + "'"; return res; }
+        } else {
+          if (base == "add") ret = &(D += *S); else if (base == "sub") ret = &(D -= *S);
+          else if (base == "mul") ret = &(D *= *S); else if (base == "div") ret = &(D /= *S);
+          else if (base == "mod") ret = &(D %= *S); else if (base == "and") ret = &(D &= *S);
+          else if (base == "or") ret = &(D |= *S); else ret = &(D ^= *S);
+        }
+      }
+      else { res.impl = "bad-op"; res.oracle = "FAIL malformed statement '" + st + "'"; return res; }
+    } catch (Dune::MathError&) {
+      threw = true;
+    }
+    if (expectErr) stat("stmt_zero_divisor");
+    if (threw) {
+      obs.push_back("ERR:Math");
+      if (!expectErr && fail.empty()) fail = "FAIL MathError for non-zero divisor in '" + st + "'";
+      if (toMpz<k>(D) != SD0 && fail.empty()) fail = "FAIL destination changed although '" + st + "' threw";
+    } else {
+      mpz_class got = toMpz<k>(D);
+      obs.push_back(hexFixed(got, n));
+      if (fail.empty()) {
+        if (expectErr) fail = "FAIL zero divisor not reported in '" + st + "'";
+        else if (got != E) fail = "FAIL after '" + st + "': value " + hexOf(got) + " expected " + hexOf(E);
+        else if (ret && toMpz<k>(*ret) != E) fail = "FAIL '" + st + "' returned " + hexOf(toMpz<k>(*ret)) + ", not the new value";
+      }
+      SD = got;  // follow the implementation, so that one wrong step is reported once
+    }
+    if (toMpz<k>(O) != SO && fail.empty()) fail = "FAIL '" + st + "' modified the other variable";
+  }
+  res.impl = join(obs.begin(), obs.end(), ";") + " => " + hexFixed(toMpz<k>(a), n) + " " + hexFixed(toMpz<k>(b), n);
+  if (!fail.empty()) res.oracle = fail;
   return res;
 }
 
@@ -95,18 +245,35 @@ Result execK(const std::vector<std::string>& w) {
         std::uintmax_t y = std::stoull(w.at(3));
         Bv = mpz_class(std::to_string(y)) % W;
         Big a = fromMpz<k>(A);
-        r = base == "add" ? a + y : base == "sub" ? a - y : base == "mul" ? a * y : base == "div" ? a / y : a % y;
+        const Big a0 = a;
+        // the operand is passed as int / unsigned / uintmax_t: all must select the uintmax_t overloads
+        if (y < (1ull << 31) && y % 3 == 0) {
+          int yi = (int)y; stat("mixed_int");
+          r = base == "add" ? a + yi : base == "sub" ? a - yi : base == "mul" ? a * yi : base == "div" ? a / yi : a % yi;
+        } else if (y < (1ull << 32) && y % 3 == 1) {
+          unsigned yu = (unsigned)y; stat("mixed_unsigned");
+          r = base == "add" ? a + yu : base == "sub" ? a - yu : base == "mul" ? a * yu : base == "div" ? a / yu : a % yu;
+        } else
+          r = base == "add" ? a + y : base == "sub" ? a - y : base == "mul" ? a * y : base == "div" ? a / y : a % y;
+        if (a != a0) res.oracle = "FAIL operand modified";
       } else {
         std::uintmax_t y = std::stoull(w.at(2));
         A = mpz_class(std::to_string(y)) % W;
         Bv = bigArg(3);
         Big b = fromMpz<k>(Bv);
-        r = base == "add" ? y + b : base == "sub" ? y - b : base == "mul" ? y * b : base == "div" ? y / b : y % b;
+        const Big b0 = b;
+        if (y < (1ull << 31) && y % 3 == 0) {
+          int yi = (int)y; stat("mixed_int");
+          r = base == "add" ? yi + b : base == "sub" ? yi - b : base == "mul" ? yi * b : base == "div" ? yi / b : yi % b;
+        } else
+          r = base == "add" ? y + b : base == "sub" ? y - b : base == "mul" ? y * b : base == "div" ? y / b : y % b;
+        if (b != b0) res.oracle = "FAIL operand modified";
       }
     } catch (Dune::MathError&) {
       threw = true;
     }
     if ((base == "div" || base == "mod") && Bv == 0) {
+      stat("zero_divisor");
       res.impl = threw ? "ERR:Math" : pr(r);
       if (!threw) res.oracle = "FAIL zero divisor not reported";
       return res;
@@ -127,25 +294,36 @@ Result execK(const std::vector<std::string>& w) {
     Big a = fromMpz<k>(A), b = fromMpz<k>(Bv);
     Big r = op == "and" ? a & b : op == "or" ? a | b : a ^ b;
     mpz_class e = op == "and" ? mpz_class(A & Bv) : op == "or" ? mpz_class(A | Bv) : mpz_class(A ^ Bv);
-    return valueResult<k>(r, e);
+    Result vr = valueResult<k>(r, e);
+    if (vr.oracle == "ok" && (toMpz<k>(a) != A || toMpz<k>(b) != Bv)) vr.oracle = "FAIL operand modified";
+    return vr;
   }
   if (op == "not") {
     mpz_class A = bigArg(2);
-    return valueResult<k>(~fromMpz<k>(A), W - 1 - A);
+    const Big a = fromMpz<k>(A);
+    Result vr = valueResult<k>(~a, W - 1 - A);
+    if (vr.oracle == "ok" && toMpz<k>(a) != A) vr.oracle = "FAIL operand modified";
+    return vr;
   }
   if (op == "incr") {
     mpz_class A = bigArg(2);
     Big a = fromMpz<k>(A);
-    ++a;
-    return valueResult<k>(a, (A + 1) % W);
+    const Big& ret = ++a;
+    Result vr = valueResult<k>(a, (A + 1) % W);
+    if (vr.oracle == "ok" && toMpz<k>(ret) != (A + 1) % W) vr.oracle = "FAIL ++ does not return the incremented value";
+    return vr;
   }
   if (op == "shl" || op == "shr") {
     mpz_class A = bigArg(2);
     int s = std::stoi(w.at(3));
     Big a = fromMpz<k>(A);
+    stat(s % 16 == 0 ? "shift_whole_digits" : "shift_with_bits");
+    if (s / 16 == n - 1) stat("shift_top_digit");
     Big r = op == "shl" ? a << s : a >> s;
     mpz_class e = op == "shl" ? mpz_class((A << s) % W) : mpz_class(A >> s);
-    return valueResult<k>(r, e);
+    Result vr = valueResult<k>(r, e);
+    if (vr.oracle == "ok" && toMpz<k>(a) != A) vr.oracle = "FAIL operand modified";
+    return vr;
   }
   if (op == "lt" || op == "le" || op == "gt" || op == "ge" || op == "eq" || op == "ne") {
     mpz_class A = bigArg(2), Bv = bigArg(3);
@@ -155,7 +333,7 @@ Result execK(const std::vector<std::string>& w) {
     if (op == "gt") return boolRes(a > b, A > Bv);
     if (op == "ge") return boolRes(a >= b, A >= Bv);
     if (op == "eq") return boolRes(a == b, A == Bv);
-    return boolRes(a != b, A != Bv);
+    return boolRes(a != b, A != Bv);  // (the comparison operators are const members taking const&)
   }
   if (op == "hasheq") {
     mpz_class A = bigArg(2), Bv = bigArg(3);
@@ -214,7 +392,61 @@ Result execK(const std::vector<std::string>& w) {
   }
   if (op == "print") {
     mpz_class A = bigArg(2);
-    return valueResult<k>(fromMpz<k>(A), A);
+    const Big a = fromMpz<k>(A);
+    Result vr = valueResult<k>(a, A);       // oracle: the printed characters denote the value
+    std::ostringstream os;
+    a.print(os);                            // the member function; operator<< is used by valueResult
+    if (vr.oracle == "ok" && os.str() != pr(a)) vr.oracle = "FAIL print() and operator<< differ";
+    vr.impl = canonPrinted(os.str());
+    return vr;
+  }
+  if (op == "default") {
+    Big a;
+    return valueResult<k>(a, 0);
+  }
+  if (op == "limits") {
+    using L = std::numeric_limits<Big>;
+    std::ostringstream os;
+    auto tf = [](bool b) { return b ? "true" : "false"; };
+    os << "digits=" << L::digits << " radix=" << L::radix << " signed=" << tf(L::is_signed) << " integer=" << tf(L::is_integer)
+       << " exact=" << tf(L::is_exact) << " bounded=" << tf(L::is_bounded) << " modulo=" << tf(L::is_modulo);
+    res.impl = os.str();
+    if (!L::is_specialized || L::digits != 16 * n || L::radix != 2 || L::is_signed || !L::is_integer || !L::is_exact ||
+        !L::is_bounded || !L::is_modulo)
+      res.oracle = "FAIL numeric_limits data inconsistent with an unsigned modulo-2^" + std::to_string(16 * n) + " integer";
+    else {
+      // max() has exactly `digits` one-bits, lowest() = min() = 0
+      Big m = L::max();
+      mpz_class M = toMpz<k>(m);
+      if (M != (mpz_class(1) << L::digits) - 1) res.oracle = "FAIL max() != 2^digits - 1";
+      else if (toMpz<k>(L::min()) != 0) res.oracle = "FAIL min() not zero";
+      else if (toMpz<k>(m >> (L::digits - 1)) != 1) res.oracle = "FAIL max() >> (digits-1) != 1";
+    }
+    return res;
+  }
+  if (op == "ctor") {
+    const std::string& ty = w.at(2);
+    const std::string& sv = w.at(3);
+    bool neg = sv[0] == '-';
+    long long y = neg || ty[0] == 'i' ? std::stoll(sv) : 0;
+    unsigned long long u = neg || ty[0] == 'i' ? 0 : std::stoull(sv);
+    stat("ctor_" + ty);
+    if (neg) stat("ctor_negative");
+    auto inRange = [&](long long lo, long long hi) { return y >= lo && y <= hi; };
+    if (ty == "i8" && inRange(-128, 127)) return ctorAs<k, signed char>(y, 0, true);
+    if (ty == "i16" && inRange(-32768, 32767)) return ctorAs<k, short>(y, 0, true);
+    if (ty == "i32" && inRange(-2147483648ll, 2147483647ll)) return ctorAs<k, int>(y, 0, true);
+    if (ty == "i64") return (y & 2) ? ctorAs<k, long>(y, 0, true) : ctorAs<k, long long>(y, 0, true);
+    if (!neg) {
+      if (ty == "u8" && u <= 0xff) return ctorAs<k, unsigned char>(0, u, false);
+      if (ty == "u16" && u <= 0xffff) return ctorAs<k, unsigned short>(0, u, false);
+      if (ty == "u32" && u <= 0xffffffffull) return ctorAs<k, unsigned>(0, u, false);
+      if (ty == "u64") return (u & 2) ? ctorAs<k, unsigned long>(0, u, false) : ctorAs<k, unsigned long long>(0, u, false);
+      if (ty == "bool" && u <= 1) return ctorAs<k, bool>(0, u, false);
+    }
+    res.impl = "bad-op";
+    res.oracle = "ok trivial";
+    return res;
   }
   if (op == "max") {
     Big m = std::numeric_limits<Big>::max();
@@ -236,22 +468,33 @@ Result execK(const std::vector<std::string>& w) {
   return res;
 }
 
-static const int KS[] = {8, 16, 24, 32, 48, 64, 100, 128, 256};
+static const int KS[] = {8, 16, 24, 32, 48, 64, 65, 100, 128, 256};
+static const int NKS = sizeof(KS) / sizeof(KS[0]);
+
+template <int k>
+Result execAny(const std::vector<std::string>& w, const std::string& line) {
+  if (w[1] == "prog") { stat("op_prog"); stat("k_" + std::to_string(k)); return execProg<k>(line); }
+  return execK<k>(w);
+}
 
 Result exec(const std::string& line) {
   auto w = words(line);
   if (w.size() < 2) return Result{"bad-op", "FAIL malformed line"};
   int k = std::stoi(w[0]);
+  // a case that does not return is killed: for this property a hang on a valid input is a violation
+  alarm(dv_case_timeout);
+  struct Disarm { ~Disarm() { alarm(0); } } disarm;
   switch (k) {
-    case 8: return execK<8>(w);
-    case 16: return execK<16>(w);
-    case 24: return execK<24>(w);
-    case 32: return execK<32>(w);
-    case 48: return execK<48>(w);
-    case 64: return execK<64>(w);
-    case 100: return execK<100>(w);
-    case 128: return execK<128>(w);
-    case 256: return execK<256>(w);
+    case 65: return execAny<65>(w, line);
+    case 8: return execAny<8>(w, line);
+    case 16: return execAny<16>(w, line);
+    case 24: return execAny<24>(w, line);
+    case 32: return execAny<32>(w, line);
+    case 48: return execAny<48>(w, line);
+    case 64: return execAny<64>(w, line);
+    case 100: return execAny<100>(w, line);
+    case 128: return execAny<128>(w, line);
+    case 256: return execAny<256>(w, line);
   }
   return Result{"bad-op", "FAIL width not instantiated"};
 }
@@ -273,13 +516,14 @@ mpz_class genVal(Rng& r, int n) {
   return v;
 }
 
-std::string gen(Rng& r, long, const Args&) {
+std::string gen(Rng& r, long, const Args& a) {
   static const std::vector<std::string> ops = {
       "add", "sub", "mul", "div", "mod", "and", "or", "xor", "not", "incr", "shl", "shr", "lt", "le", "gt", "ge",
       "eq", "ne", "hasheq", "assign", "touint", "todouble", "print", "max", "digits",
       "add_u", "sub_u", "mul_u", "div_u", "mod_u", "u_add", "u_sub", "u_mul", "u_div", "u_mod",
-      "add", "sub", "mul", "shl", "shr", "lt", "le", "div", "mod", "todouble"};
-  int k = KS[r.below(9)];
+      "add", "sub", "mul", "shl", "shr", "lt", "le", "div", "mod", "todouble",
+      "prog", "prog", "prog", "prog", "prog", "prog", "prog", "prog", "ctor", "ctor", "ctor", "default", "limits"};
+  int k = KS[r.below(NKS)];
   int n = k / 16 + (k % 16 != 0);
   std::string op = r.pick(ops);
   std::ostringstream os;
@@ -294,6 +538,104 @@ std::string gen(Rng& r, long, const Args&) {
       default: return (1ull << r.below(64)) - r.below(2);
     }
   };
+  if (op == "prog") {
+    // a history of compound statements on two variables; the GMP shadow keeps divisions affordable
+    mpz_class A = genVal(r, n), Bv = genVal(r, n);
+    if (r.coin(1, 6)) Bv = A;
+    if (r.coin(1, 8)) Bv = 0;
+    os << " " << hexOf(A) << " " << hexOf(Bv) << " : ";
+    int len = (int)r.range(1, a.tier == "thorough" ? 24 : 10);
+    static const std::vector<std::string> bins = {"add", "sub", "mul", "div", "mod", "and", "or", "xor",
+                                                  "add", "sub", "mul", "div", "mod"};
+    for (int i = 0; i < len; ++i) {
+      if (i) os << ";";
+      bool dIsA = r.coin();
+      mpz_class& D = dIsA ? A : Bv;
+      const char* dn = dIsA ? "a" : "b";
+      int kind = (int)r.below(20);
+      if (kind < 11) {                                      // d op= s, one time in four with s == d
+        bool alias = r.coin(1, 4);
+        bool sIsA = alias ? dIsA : !dIsA;
+        if (!alias && r.coin(1, 8)) sIsA = r.coin();
+        mpz_class S = sIsA ? A : Bv;
+        std::string o = r.pick(bins);
+        if ((o == "div" || o == "mod") && S != 0 && D / S > 300) {
+          // too slow as it stands: divide the other way round if that is affordable, else subtract
+          mpz_class& D2 = sIsA ? A : Bv;
+          const mpz_class S2 = dIsA ? A : Bv;
+          if (S2 != 0 && D2 / S2 <= 300) {
+            if (o == "div") D2 = D2 / S2; else D2 = D2 % S2;
+            os << o << " " << (sIsA ? "a" : "b") << " " << dn;
+            continue;
+          }
+          o = "sub";
+        }
+        os << o << " " << dn << " " << (sIsA ? "a" : "b");
+        if (o == "add") D = (D + S) % W; else if (o == "sub") D = ((D - S) % W + W) % W;
+        else if (o == "mul") D = (D * S) % W; else if (o == "div") { if (S != 0) D = D / S; }
+        else if (o == "mod") { if (S != 0) D = D % S; } else if (o == "and") D = D & S;
+        else if (o == "or") D = D | S; else D = D ^ S;
+      } else if (kind < 14) {                               // d = d op y with a built-in y
+        static const std::vector<std::string> ubins = {"add", "sub", "mul", "div", "mod"};
+        std::string o = r.pick(ubins);
+        unsigned long long y = small64();
+        if ((o == "div" || o == "mod") && r.coin(1, 10)) y = 0;
+        mpz_class S = mpz_class(std::to_string(y)) % W;
+        if ((o == "div" || o == "mod") && S != 0 && D / S > 300) o = "mul";
+        os << o << "u " << dn << " " << y;
+        if (o == "add") D = (D + S) % W; else if (o == "sub") D = ((D - S) % W + W) % W;
+        else if (o == "mul") D = (D * S) % W; else if (o == "div") { if (S != 0) D = D / S; }
+        else { if (S != 0) D = D % S; }
+      } else if (kind < 15) { os << "incr " << dn; D = (D + 1) % W; }
+      else if (kind < 16) { os << "not " << dn; D = W - 1 - D; }
+      else if (kind < 19) {
+        int s = (int)r.below(16 * n);
+        if (r.coin(1, 3)) s = (int)(16 * r.below(n)) + (int)r.pick(std::vector<int>{0, 1, 15});
+        if (s >= 16 * n) s = 16 * n - 1;
+        if (r.coin()) { os << "shl " << dn << " " << s; D = (D << s) % W; }
+        else { os << "shr " << dn << " " << s; D = D >> s; }
+      } else { os << "copy " << dn << " " << (dIsA ? "b" : "a"); D = dIsA ? Bv : A; }
+    }
+    return os.str();
+  }
+  if (op == "ctor") {
+    static const std::vector<std::string> tys = {"i8", "i16", "i32", "i64", "u8", "u16", "u32", "u64", "bool"};
+    std::string ty = r.pick(tys);
+    int bitsT = ty == "bool" ? 1 : std::stoi(ty.substr(1));
+    os << " " << ty << " ";
+    if (ty[0] == 'i') {
+      long long lo = bitsT == 64 ? std::numeric_limits<long long>::min() : -(1ll << (bitsT - 1));
+      long long hi = bitsT == 64 ? std::numeric_limits<long long>::max() : (1ll << (bitsT - 1)) - 1;
+      long long v;
+      switch (r.below(8)) {
+        case 0: v = lo; break;
+        case 1: v = hi; break;
+        case 2: v = -1; break;
+        case 3: v = 0; break;
+        case 4: v = hi - (long long)r.below(3); break;
+        case 5: v = (long long)r.below(70000) % (hi / 2 + 1); break;
+        default: {
+          unsigned long long span = (unsigned long long)hi - (unsigned long long)lo;  // 2^bits - 1
+          unsigned long long off = span == ~0ull ? r.next() : r.next() % (span + 1);
+          v = (long long)((unsigned long long)lo + off);
+        }
+      }
+      os << v;
+    } else {
+      unsigned long long hi = bitsT == 64 ? ~0ull : (1ull << bitsT) - 1;
+      unsigned long long v;
+      switch (r.below(5)) {
+        case 0: v = 0; break;
+        case 1: v = hi; break;
+        case 2: v = hi - r.below(3) % (hi + 1 ? hi + 1 : 1); break;
+        case 3: v = r.below(70000); break;
+        default: v = r.next();
+      }
+      if (hi != ~0ull) v %= (hi + 1);
+      os << v;
+    }
+    return os.str();
+  }
   bool isDiv = op.find("div") != std::string::npos || op.find("mod") != std::string::npos;
   if (isDiv) {
     // quotient kept small: the real algorithm is O(quotient)
@@ -351,7 +693,7 @@ std::string gen(Rng& r, long, const Args&) {
     else os << " " << small64();
     return os.str();
   }
-  return os.str();  // max, digits
+  return os.str();  // max, digits, default, limits
 }
 
 int main(int argc, char** argv) { return dv::run(argc, argv, gen, exec); }
